@@ -143,7 +143,7 @@ struct StaticClass {
         p.set("qseed", work.next() >> 1);
         if (!scale) p.set("qmax", large ? 1500 : 2000);
         if (!p.has("recipe")) { Rng shape = sim::stream(g.run_seed, "shape"); Tr::post_keys(p, shape); }
-        if (!scale && !scale19 && (g.prop == "C08" || g.prop == "C09" || g.prop == "C10" || g.prop == "C18" || g.prop == "C17") && cfg.chance(g.prop == "C18" ? 400 : 150)) p.set("successor", 1);
+        if (!scale && !scale19 && (g.prop == "C08" || g.prop == "C09" || g.prop == "C10" || g.prop == "C18" || g.prop == "C17") && cfg.chance(g.prop == "C18" ? 400 : 150)) p.set("successor", cfg.chance(300) ? 2 : 1);
         if (g.prop == "C19") { p.set("steps", draw_lifetime_steps(cfg)); p.set("qmax", scale19 ? 20000 : (large ? 300 : 400)); }
         if (g.prop == "C20") p.set("reserved_copies", cfg.range(1, 3));
         p.set("known_skip", 1); // queries inside the query-level predicate of a known finding are executed but not judged
@@ -249,18 +249,23 @@ struct StaticClass {
         if (p.get_u("successor", 0) && n >= 4 && !queries.empty() && (out.ok || prop == "C17")) {
             // History step: the index is destroyed and a different one is created straight away (the allocator hands the
             // same address back); its first query is the last one the destroyed index answered.
-            delete idx;
+            // (successor 2: the first index stays alive next to the second one and answers the same query just before it)
+            const bool side_by_side = p.get_u("successor", 0) == 2;
+            Index *first = nullptr;
+            if (side_by_side) first = idx; else delete idx;
             idx = nullptr;
             std::vector<K> data2;
             for (size_t i = 0; i < n; ++i) if ((i & 1) || i + 1 == n) data2.push_back(data[i]);
             sim::begin_run(env);
             try { idx = Tr::build(data2); } catch (const std::exception &e) { idx = nullptr; }
             sim::end_run();
-            if (!idx) { if (prop != "C17") out.fail("ctor-exception", "successor index: constructor threw on in-domain data"); out.trace_hash = tr.h; return out; }
-            st.inc("successor_runs");
+            if (!idx) { delete first; if (prop != "C17") out.fail("ctor-exception", "successor index: constructor threw on in-domain data"); out.trace_hash = tr.h; return out; }
+            st.inc(side_by_side ? "side_by_side_runs" : "successor_runs");
+            std::unique_ptr<Index> first_owner(first);
             typename Tr::Aux aux2(*idx, data2);
             for (size_t qi = queries.size(); qi-- > 0;) {
                 K q = queries[qi];
+                if (first) { Approx r1 = Tr::search(*first, q); tr.add(r1.pos); }
                 Approx r = Tr::search(*idx, q);
                 tr.add(r.pos); tr.add(r.lo); tr.add(r.hi);
                 if (aux2.known_affected(q)) {
@@ -269,7 +274,7 @@ struct StaticClass {
                 }
                 if (!check_contract(data2, q, r, Tr::eps_of(p), clauses, o) || !aux2.check(*idx, data2, q, r, o, st)) {
                     if (prop == "C17") { scratch = Outcome(); continue; }
-                    o.detail = "successor index (built at the address of a destroyed one): " + o.detail;
+                    o.detail = std::string(side_by_side ? "second index alive next to the first (same query sent to both): " : "successor index (built at the address of a destroyed one): ") + o.detail;
                     break;
                 }
                 st.inc("queries");
